@@ -84,7 +84,11 @@ class Cmp:
             else:
                 return False
             self.size_reason = "payload-region"
-            return sym.p_add(p, sym.p_const(mod), -1) == child_poly
+            d_ = sym.p_add(sym.p_add(p, sym.p_const(mod), -1), child_poly, -1)
+            if mod and d_ == sym.p_const(-mod):
+                # exactly the bytes of the payload region, without the declared modifier
+                self.size_reason = "payload-modifier-dropped"
+            return not d_
         # array target
         arr = self.array_item(target)
         eb = arr.get("elem_bytes") if arr else None
@@ -145,6 +149,16 @@ class Cmp:
                         kconst = int(child_poly.get((), 0)) + w[2]
                         if ((kconst >> w[3]) & 1) == g:
                             continue
+                        # a constant is written and it is not the static size of the region plus the modifier
+                        written = 0
+                        for w2, g2 in zip(want, got["bits"]):
+                            if isinstance(w2, tuple) and w2[0] == "size" and w2[1] == w[1] and g2 in (0, 1):
+                                written |= g2 << w2[3]
+                        self.size_reason = "payload-modifier-dropped" if (w[2] and written == kconst - w[2]) else \
+                            "payload-region"
+                        self.bad("bit|size|" + self.size_reason, f"the size of `{w[1]}` is written as the constant {written}; the "
+                                 f"region holds {kconst - w[2]} octet(s) and the modifier is +{w[2]}")
+                        return
                 if g == 0 and (self.always_zero(got, ("len", "sumlen", "size", "sizeexpr"), w[1], w[3]) or
                                (w[1] in ("_payload_", "_body_") and any(
                                    role in ("len", "size", "sumlen", "sizeexpr") and hi != sym.INF and hi < (1 << w[3])
